@@ -242,6 +242,16 @@ func c06Sweeps(r *eng.Run) {
 	for _, w := range twoEscapeStrings() {
 		one(w, "two-escapes")
 	}
+	// long strings round power-of-two size thresholds: an escape followed / preceded by a long
+	// plain run (size hints, chunked copies, caps such as 64 KiB)
+	for _, L := range []int{1000, 4095, 4096, 4097, 65535, 65536, 65537, 73727, 73728, 73729, 80000, 131072, 200000} {
+		run := strings.Repeat("x", L)
+		for _, e := range []string{"\\" + "n", U("00e9"), "\\" + `"`} {
+			one([]byte(`"`+e+run+`"`), "long-after-escape")
+			one([]byte(`"`+run+e+`"`), "long-before-escape")
+			one([]byte(`"`+e+run+e+run[:100]+`"`), "long-between-escapes")
+		}
+	}
 	// growth boundaries: destination (len 0..3, spare 0..8) x escape kinds at each position of a
 	// 3-byte string
 	escs := []string{`\n`, `\"`, `\\`, `\/`, `\b`, `\f`, `\r`, `\t`, U("0041"), U("00e9"), U("20ac"), U("d83d") + U("de00"), U("0000"), "é", "😀", `\ud800`, "\x7f", "\xc3\xa9", "\xff"}
